@@ -367,3 +367,94 @@ func ruleLookahead(c *Ctx, r *Report) {
 		}
 	}
 }
+
+// ---------------------------------------------------------------------------
+// R-NEXT-ADVANCES (C05; added with fix F18): the parser's alternatives look ahead with next() and step
+// back with backup() whether or not the read succeeded (`t, _ := p.next(); …; p.backup()` occurs a dozen
+// times). That is only sound if next() moves the window by exactly one slot on EVERY return path,
+// failures included: each path through the function that takes a token out of the ring passes through the
+// ring's get(), and each path on which the ring was empty passes through put() first. Before fix F18 the
+// error path returned without touching the ring; at the end of the input the following backup() exposed
+// the previous token again and 'X = [-' recursed until the Go stack was exhausted.
+
+func ruleNextAdvances(c *Ctx, r *Report) {
+	const rule = "R-NEXT-ADVANCES"
+	get := c.method("tokenRingBuffer", "get")
+	put := c.method("tokenRingBuffer", "put")
+	empty := c.method("tokenRingBuffer", "empty")
+	if get == nil || put == nil || empty == nil {
+		r.undecided(rule, "anchor:tokenRingBuffer", "-", "locate the token ring's get/put/empty", "not found")
+		return
+	}
+	n := 0
+	for _, fn := range c.LibFuncs() {
+		calls := func(target *ssa.Function) []ssa.Instruction {
+			var out []ssa.Instruction
+			eachInstr(fn, func(in ssa.Instruction) {
+				if ci, ok := in.(ssa.CallInstruction); ok && ci.Common().StaticCallee() == target {
+					out = append(out, in)
+				}
+			})
+			return out
+		}
+		gets := calls(get)
+		if len(gets) == 0 || fn == get {
+			continue
+		}
+		n++
+		key := fname(fn)
+		isCall := func(target *ssa.Function) func(ssa.Instruction) bool {
+			return func(in ssa.Instruction) bool {
+				ci, ok := in.(ssa.CallInstruction)
+				return ok && ci.Common().StaticCallee() == target
+			}
+		}
+		isReturn := func(in ssa.Instruction) bool { _, ok := in.(*ssa.Return); return ok }
+		// (1) entry -> return avoiding get
+		first := fn.Blocks[0].Instrs[0]
+		var miss ssa.Instruction
+		if isReturn(first) {
+			miss = first
+		} else if !isCall(get)(first) {
+			miss = instrReachAvoid(first, isReturn, isCall(get))
+		}
+		desc := "the function that takes a token out of the parser's window moves the window on every return path"
+		if miss == nil {
+			r.ok(rule, key+"/always-get", c.Pos(fn.Pos()), desc, "every path to a return passes through the ring's get()", true)
+		} else {
+			r.bad(rule, key+"/always-get", c.at(miss), desc, "this return is reachable without get(): a failed read leaves the window where it was, and the callers' unconditional backup() then exposes the previous token again (endless re-parsing at the end of the input)")
+		}
+		// (2) empty() true edge -> get avoiding put
+		for _, e := range calls(empty) {
+			ev, _ := e.(ssa.Value)
+			var tb *ssa.BasicBlock
+			if iff, ok := e.Block().Instrs[len(e.Block().Instrs)-1].(*ssa.If); ok && iff.Cond == ev {
+				tb = e.Block().Succs[0]
+			}
+			if tb == nil {
+				r.undecided(rule, key+"/refill", c.at(e), "an empty window is refilled before it is read", "the result of empty() is not branched on directly")
+				continue
+			}
+			var hit ssa.Instruction
+			if len(tb.Instrs) > 0 {
+				f0 := tb.Instrs[0]
+				switch {
+				case isCall(put)(f0):
+				case isCall(get)(f0):
+					hit = f0
+				default:
+					hit = instrReachAvoid(f0, isCall(get), isCall(put))
+				}
+			}
+			if hit == nil {
+				r.ok(rule, key+"/refill", c.at(e), "an empty window is refilled before it is read", "from the empty edge, get() is reachable only through put()", true)
+			} else {
+				r.bad(rule, key+"/refill", c.at(hit), "an empty window is refilled before it is read", "get() is reachable from the empty edge without put(): it would hand out a stale slot")
+			}
+		}
+	}
+	if n == 0 {
+		r.bad(rule, "scan/readers", "-", "locate the reader of the token ring", "no function calls tokenRingBuffer.get")
+	}
+	r.analysed(rule, fmt.Sprintf("%d readers of the token ring", n))
+}
